@@ -19,11 +19,11 @@ def expected_outcomes(kind, n, k):
 
 def run_enum(binary, specs, what):
     """specs: list of (kind, n, k, grid, draws).  Yields check.py `extra` items."""
-    reqs = ["enum kind=%s n=%d k=%d grid=%d draws=%d" % s for s in specs]
+    reqs = ["enum kind=%s n=%d k=%d grid=%d draws=%d" % s[:5] + (" hint=%s" % s[5] if len(s) > 5 and s[5] else "") for s in specs]
     rc, res, err = C.run_lines(binary, ["run"], reqs, timeout=3600)
     total = 0
     for spec, req, out in zip(specs, reqs, res):
-        kind, n, k, grid, draws = spec
+        kind, n, k, grid, draws = spec[:5]
         total += grid ** draws
         if out in ("panic", "bad-request"):
             yield {"kind": "oracle", "build": "dev", "request": req, "impl": out, "model": "", "oracle": "enumeration request failed: " + out}
